@@ -1,7 +1,7 @@
 """C05 — AABB tree answers overlap queries exactly, for every insertion history."""
 from . import scopes
 from ..core.report import DOMAIN_D
-from ..rules import aabbtree, unpack, misc2
+from ..rules import generic2, aabbtree, unpack, misc2
 
 
 def run(idx, rep, tier):
@@ -21,4 +21,5 @@ def run(idx, rep, tier):
     aabbtree.r_bookkeep(idx, rep)
     aabbtree.r_unique(idx, rep)
     misc2.r_dupcond(idx, rep, [m.name for m in idx.lib_modules()], floor=3)
+    generic2.r_indextruth(idx, rep, [m.name for m in idx.lib_modules()], floor=4)
     unpack.r_unpack(idx, rep, floor=4)
